@@ -110,6 +110,18 @@ PROPS = {
                       ("addsub", "mul", "div", "bits", "text", "conv", "modpow", "roots", "pow", "gcd", "forms", "bytes", "history", "sign")],
         "owns_reasons": ("unexpected_panic", "missing_failure", "unexpected_none", "crash"),
     },
+    "C15": {
+        "mc": L0_QUICK,
+        "drivers": [drv("addsub", "debug", env={"HARNESS_GUARD": "end"}), drv("addsub", "release", env={"HARNESS_GUARD": "end"}),
+                    drv("addsub", "release", env={"HARNESS_DIRTY": "1"}),
+                    drv("addsub", "release", tiers=T, env={"HARNESS_GUARD": "start"}),
+                    drv("text", "release", env={"HARNESS_GUARD": "end", "HARNESS_SAMPLE": "3"}),
+                    drv("rand", "release", env={"HARNESS_GUARD": "end"}),
+                    drv("div", "release", env={"HARNESS_GUARD": "end", "HARNESS_SAMPLE": "4"}),
+                    drv("mul", "release", tiers=T, env={"HARNESS_GUARD": "end"}),
+                    drv("bytes", "release", tiers=T, env={"HARNESS_GUARD": "end"})],
+        "owns_reasons": ("crash", "srcmod"),
+    },
     "C10": {
         "mc": L0_QUICK + L0_THOROUGH,
         "drivers": [drv("forms", "debug"), drv("forms", "release", tiers=T)],
@@ -135,6 +147,7 @@ own("C02", "mul checked_mul mul_sc")
 own("C03", "div rem div_rem checked_div div_floor mod_floor div_mod_floor div_ceil div_euclid rem_euclid div_rem_euclid checked_div_euclid checked_rem_euclid checked_div_rem_euclid is_multiple_of")
 own("C07", "bitand bitor bitxor not shl shr bit set_bit bits trailing_zeros trailing_ones count_ones")
 own("C05", "modpow modinv")
+own("C15", "to_str_radix fmt gen_biguint")
 own("C06", "to_str_radix fmt to_radix_le to_radix_be parse from_radix_le from_radix_be")
 own("C08", "to_prim to_prim_val to_biguint to_biguint_val to_bigint to_f64 to_f32 from_prim from_float")
 own("C09", "from_bytes_le from_bytes_be new_u32 from_signed_bytes_le from_signed_bytes_be to_bytes_le to_bytes_be to_u32_digits to_u64_digits to_signed_bytes_le to_signed_bytes_be iter_collect iter")
